@@ -147,6 +147,23 @@ Proof.
   rewrite Ha. reflexivity.
 Qed.
 
+(* in-place operations are confined to the receiver: an assignment, a deletion,
+   with_/update_/transform_/reset_<attr>(_inplace=True), reset(_inplace=True),
+   transform(_inplace=True) and update(_inplace=True) without a positional
+   replacement value write, among the cells that existed before, only the
+   receiver's own cell — whatever the arguments, the outcome (return or any
+   exception) and the failure point of user callbacks.  Hence no class-level
+   default, constructor argument, peer or nested value (frozen or not) is
+   changed by them; everything else they touch is freshly allocated.
+   No guard on callbacks; only: no do_not_copy=True classes, no plain subclasses. *)
+Theorem C08_inplace_confined_to_receiver :
+  forall ct, no_dnc_classes ct -> own_metadata ct ->
+  forall roots o s l,
+    inplace_attr_op o -> nth (op_target o) roots VNone = VRef l ->
+    forall l', l' < length (heap s) -> l' <> l ->
+      nth_error (heap (snd (step ct roots o s))) l' = nth_error (heap s) l'.
+Proof. intros ct H1 H2. exact (inplace_confined ct H1 H2). Qed.
+
 (* the initial situation of every generated case: the heap holds exactly the
    class-level default objects (plain collections of scalars), the roots are those objects *)
 Lemma C08_initial_state_isolated h0 :
@@ -213,11 +230,28 @@ Proof.
   - vm_compute. repeat split; reflexivity.
 Qed.
 
+(* non-vacuity of the confinement theorem: reset(_inplace=True) on the instance of
+   the history above rewrites its cell 2, allocates, and leaves the argument list
+   (cell 1) and the class-level default (cell 0) alone *)
+Example C08_inplace_confined_nonvacuous :
+  inplace_attr_op (OpHelper 2 HResetTop (mkh [] true true VMissing false None None [] None)) /\
+  (let s1 := fst (run_ops ex8_ct (mkst exh_h0 0 None) [VRef 0] (firstn 2 exh_ops)) in
+   let '(r, s2) := step ex8_ct [VRef 0; VRef 1; VRef 2]
+                        (OpHelper 2 HResetTop (mkh [] true true VMissing false None None [] None)) s1 in
+   r = Ok (VRef 2) /\ nth_error (heap s1) 2 <> nth_error (heap s2) 2 /\
+   length (heap s1) < length (heap s2) /\
+   firstn 2 (heap s2) = firstn 2 (heap s1)).
+Proof.
+  split; [split; exact I|]. vm_compute. repeat split; try reflexivity; try discriminate. auto.
+Qed.
+
 Print Assumptions C08_construct_fresh.
 Print Assumptions C08_default_is_fresh.
 Print Assumptions C08_reset_keeps_defaults_isolated.
 Print Assumptions C08_defaults_isolated.
 Print Assumptions C08_reset_installs_what_init_assigns.
+Print Assumptions C08_inplace_confined_to_receiver.
 Print Assumptions C08_initial_state_isolated.
 Print Assumptions C08_nonvacuous.
 Print Assumptions C08_history_nonvacuous.
+Print Assumptions C08_inplace_confined_nonvacuous.
